@@ -206,6 +206,7 @@ func init() {
 			bound := 2
 			if tier == "thorough" {
 				bound = 3
+				items = allItems("C14", c14Oracle, nil, "incr-cancel", "incr-shutdown", "empty")
 			}
 			for _, sp := range c14Programs(tier) {
 				b := bound
@@ -230,19 +231,21 @@ func init() {
 		Items: func(tier string) []Item {
 			var items []Item
 			bound := 1
+			leakOracle := func(sp *Spec, x *X, res *mcrt.Result) (string, string) {
+				if x.WaitStep == 0 {
+					return "wait-not-returned", "Progress.Wait did not return"
+				}
+				if x.EventCount("leak") > 0 {
+					return "leak", strings.Join(x.Notes, "; ")
+				}
+				return "", ""
+			}
 			if tier == "thorough" {
 				bound = 2
+				items = allItems("C16", leakOracle, nil, "incr", "incr-cancel", "incr-shutdown", "incr-write", "two", "empty")
 			}
 			for _, sp := range c16Programs(tier) {
-				items = append(items, specItems("C16", sp, bound, allStrats, nil, func(sp *Spec, x *X, res *mcrt.Result) (string, string) {
-					if x.WaitStep == 0 {
-						return "wait-not-returned", "Progress.Wait did not return"
-					}
-					if x.EventCount("leak") > 0 {
-						return "leak", strings.Join(x.Notes, "; ")
-					}
-					return "", ""
-				})...)
+				items = append(items, specItems("C16", sp, bound, allStrats, nil, leakOracle)...)
 			}
 			for _, rf := range []string{"auto", "manual"} {
 				// the terminal goes away: the size query fails in the next cycle
